@@ -964,6 +964,8 @@ class Inliner:
         Arguments must be plain names / constants / attribute loads (they may be duplicated)."""
         inl = self
         changed = [False]
+        # calls that are the whole value of a statement are expanded as statements (expand_statement keeps the if/else shape)
+        direct = {id(n.value) for n in _own_nodes(f.node) if isinstance(n, (ast.Assign, ast.AnnAssign, ast.Return, ast.Expr)) and isinstance(getattr(n, "value", None), ast.Call)}
 
         class T(ast.NodeTransformer):
             def visit_FunctionDef(self, n):
@@ -976,6 +978,8 @@ class Inliner:
 
             def visit_Call(self, c: ast.Call):
                 self.generic_visit(c)
+                if id(c) in direct:
+                    return c
                 r = _resolve_helper(inl.prog, f, c, inl.known)
                 if r is None:
                     return c
@@ -987,8 +991,11 @@ class Inliner:
                     body = body[1:]
                 if not any(isinstance(x, ast.If) for x in body) or _stored_names(body):
                     return c  # plain one-line helpers are handled by the expression-level look-through of the resolver
+                boolean = any(isinstance(x, ast.Return) and isinstance(x.value, ast.Constant) and isinstance(x.value.value, bool) for s_ in body for x in [s_] + list(_own_nodes(s_)))
                 try:
-                    expr = _value_expr(body)
+                    # a predicate (some path returns a literal True / False) is written with and / or / not, so that the guards
+                    # it stands in keep their canonical form
+                    expr = _predicate_expr(body) if boolean else _value_expr(body)
                 except NotEligible:
                     return c
                 binding = _bind(g, c, recv)
